@@ -244,10 +244,13 @@ def build(case):
     raise ValueError(k)
 
 
+REPO_ROOT = os.environ.get('PYERRORS_VERIF_ROOT', '/repo')
+
+
 def validate_batch(docs):
     """jsonschema verdicts (python3-vt has the package); returns list of bool"""
     script = ("import json,sys,jsonschema\n"
-              "s=json.load(open('/repo/examples/json_schema.json'))\n"
+              "s=json.load(open(" + repr(REPO_ROOT + '/examples/json_schema.json') + "))\n"
               "cls=jsonschema.validators.validator_for(s)\n"
               "v=cls(s)\n"
               "docs=json.load(sys.stdin)\n"
